@@ -570,6 +570,35 @@ def uturn_kernels(F, R):
     R.floor("C03-R8", 4)
 
 
+def energy_baseline(F, R, rid="C03-R9"):
+    """Within a NUTS trajectory the energy error of every state is measured against the start of the trajectory."""
+    R.rule(rid, "NutsTree::single_step passes `start.point().initial_energy()` (the energy recorded when the trajectory was initialised and copied from state "
+                "to state) as the energy baseline of Hamiltonian::leapfrog: the divergence test and the tree weights are relative to the trajectory start, "
+                "not to the previous state")
+    tr = [v for k_, v in F.traits.items() if path_ends(k_, "hamiltonian::Hamiltonian")]
+    n = 0
+    for b in F.inherent_methods("NutsTree", "single_step"):
+        for bb, t in b.calls_to(lambda c: path_ends(c["path"], "Hamiltonian::leapfrog")):
+            n += 1
+            f64args = [(i, a) for i, a in enumerate(t["args"]) if (a["k"] in ("copy", "move") and (b.local_ty(a["pl"]["l"]) == "f64" or a["pl"].get("ty") == "f64")) or
+                       (a["k"] == "const" and (a.get("const") or {}).get("ty") == "f64")]
+            key = "%s:baseline" % b.path
+            site = "%s @%s" % (b.path, loc(t["span"]))
+            # (step_size_factor, energy_baseline, max_energy_error): the middle one
+            if len(f64args) != 3:
+                R.bad(rid, key, site, "cannot identify the energy baseline argument of leapfrog (%d f64 arguments)" % len(f64args))
+                continue
+            v = b.value(f64args[1][1])
+            if v[0] == "call" and path_ends(v[1], "Point::initial_energy"):
+                R.ok(rid, key, site, "baseline = %s" % vt_str(v)[:80])
+            else:
+                R.bad(rid, key, site, "the energy baseline of the leapfrog is %s, not the initial energy of the trajectory: energy errors (divergence test, "
+                      "tree weights) become relative to the previous state" % vt_str(v)[:100])
+    if n == 0:
+        R.missing(rid, "call of Hamiltonian::leapfrog in NutsTree::single_step")
+
+
+
 def run(F, R, config="all"):
     r1(F, R)
     r2(F, R)
@@ -579,6 +608,11 @@ def run(F, R, config="all"):
     r6(F, R)
     snapshot(F, R)
     uturn_kernels(F, R)
+    energy_baseline(F, R)
+    # the reported step count is the collector's count: every leapfrog outcome that is part of the draw must be registered (C07-R8 analysis)
+    from . import c07
+    K.borrow_rule(R, lambda sub: c07.r8(F, sub, rid="C07-R8"), "C03-R10", "every leapfrog step that ends in Ok or Divergence is registered with the collector exactly once, "
+                  "so n_steps / Progress.num_steps count the steps that were integrated (decided by the C07-R8 analysis)", only_rules={"C07-R8"})
     from . import c01, c02
     c01.r7(F, R)
     # the next trajectory starts from the returned draw only if stale whitened coordinates are refreshed:
